@@ -3,6 +3,18 @@ TRUST = ("trusted: CPython ast; the checker's own engines; for table rules the i
          "against the real loaders at development time). Known findings are listed in KNOWN_FINDINGS.txt. ")
 
 META = {
+    "C13": {
+        "engine": "sa: pairing/alias analysis, guard sets, guard engine, table model",
+        "technique": "symmetry check of the partner-update block under the a<->b swap with alias resolution; "
+                     "guard extraction of the patch loop; constant folding of the limit; consumer decision tables",
+        "text": "decides the structural conditions that make detection symmetric and order independent: both appends "
+                "of the bonded branch sit in one block and the swap atom<->partner maps them onto themselves; one "
+                "uniform loop over all bonded atoms sets flag, partner pointer and the CYX patch on the atom's own "
+                "residue under the single guard 'exactly one partner'; the limit folds to 2.5 A with a strict/non-strict "
+                "less-than on the SG-SG distance; the scan reads no chain, number or index; HG is suppressed iff bonded; "
+                "CYS.set_state names CYX in every bonded configuration; CYX/CYM remove exactly HG.",
+        "note": TRUST,
+    },
     "C17": {
         "engine": "sa: abstract domains (congruence x interval, extent tag), reachability formulas, layout engine, def-use",
         "technique": "abstract interpretation of the grid arithmetic in a congruence x interval domain and a "
